@@ -251,6 +251,30 @@ fn scenes() -> Vec<Scene> {
 			DelayBuilder::new().delay_time(Duration::from_micros(2500)).feedback(-2.0).with_feedback_effect(FilterBuilder::new().cutoff(400.0).resonance(0.5))
 		),
 		fxb!("2-frame burst then silence into a compressor (release on silence)", CompressorBuilder::new().threshold(-40.0).ratio(8.0).attack_duration(Duration::from_micros(200)).release_duration(Duration::from_millis(1))),
+		Scene {
+			name: "DC sound whose volume is linked to a tweener that jumped and was then removed (the parameter holds its last value)",
+			exact: true,
+			long_only: false,
+			build: |ibs| {
+				use kira::modulator::tweener::TweenerBuilder;
+				let mut m = rig::manager(SR, ibs, rig::caps(4), MainTrackBuilder::new());
+				let mut tw = m.add_modulator(TweenerBuilder { initial_value: 0.0 }).unwrap();
+				let vol: Value<kira::Decibels> = Value::FromModulator {
+					id: tw.id(),
+					mapping: kira::Mapping { input_range: (0.0, 1.0), output_range: (kira::Decibels(-12.0), kira::Decibels(0.0)), easing: kira::Easing::Linear },
+				};
+				let s = m.play(rig::static_data(SR, rig::dc_frames(4, 0.5)).loop_region(Region::from(..)).volume(vol)).unwrap();
+				// history (one internal buffer per step, so that it ends in the same state whatever the buffer size): adopt; the
+				// tweener jumps to 1; its handle is dropped; the rendering that is compared starts with the callback that removes it
+				let mut buf = vec![0.0f32; 2 * ibs.min(4096)];
+				let n = ibs.min(4096);
+				rig::callback(&mut m, &mut buf, n, 2);
+				tw.set(1.0, kira::Tween { duration: Duration::ZERO, ..Default::default() });
+				rig::callback(&mut m, &mut buf, n, 2);
+				drop(tw);
+				Built { m, _keep: vec![Box::new(s)], stream: None }
+			},
+		},
 		fx!("reverb", false, true, ReverbBuilder::new().feedback(0.8).damping(0.3).stereo_width(0.5)),
 		fx!("compressor", false, false, CompressorBuilder::new().threshold(-30.0).ratio(4.0).attack_duration(Duration::from_micros(500)).release_duration(Duration::from_millis(2))),
 		fx!("distortion soft clip +12 dB", true, false, DistortionBuilder::new().kind(DistortionKind::SoftClip).drive(12.0)),
